@@ -21,7 +21,9 @@ CLAIM = {
             "parser by K-gen tables and a differential run on parser-shaped trees.  Statements, declarations, class files, layout and "
             "comments are explored: parse(format(src)) is compared structurally with parse(src) on the whole corpus, on a comment inserted "
             "before every token of the small files (deterministic) and on seeded generated sources.",
-    "note": "Kernel theorem + explored remainder.  The structural comparison ignores positions, comments, resolution data, the order of "
+    "note": "Kernel theorem + explored remainder.  That the printed text scans back to the model's tokens is covered by the table obligation "
+            "C19_mayCombine_covers_prefix_operators (regenerated mayCombine x regenerated token spellings) and by the deterministic "
+            "token-adjacency family (every operator x every prefix operator, normal and compact contexts).  The structural comparison ignores positions, comments, resolution data, the order of "
             "import specs inside one declaration, doubled parentheses and parentheses around a whole if/for/switch condition.  "
             "Trusted: Coq kernel, extraction, translator, harness.",
 }
